@@ -478,8 +478,8 @@ func ruleCopyScheduledPairing(r *Report, rule string) {
 	// increments
 	info := cr.Pkg.TypesInfo
 	g := buildCFG(info, cr.Decl.Body)
-	var incKey ast.Expr
-	nInc := 0
+	var incKeys []ast.Expr
+	var incs []ast.Node
 	ast.Inspect(cr.Decl.Body, func(n ast.Node) bool {
 		s, ok := n.(*ast.IncDecStmt)
 		if !ok {
@@ -489,24 +489,71 @@ func ruleCopyScheduledPairing(r *Report, rule string) {
 		if !ok || !isField(info, ix.X, "Scorch", "copyScheduled") {
 			return true
 		}
-		nInc++
-		incKey = ix.Index
+		incs = append(incs, s)
+		incKeys = append(incKeys, ix.Index)
 		r.Ob(rule, cr.Name+"/increment-is-++", s.Pos(), s.Tok == token.INC, "one increment per segment")
 		r.Ob(rule, cr.Name+"/increment-under-W-lock", s.Pos(), lockHeldAt(g, info, s, "rootLock", "W"), "copyScheduled (a map) is mutated with rootLock WRITE-held; the purger reads it under the read lock")
-		// inside a range over the root's segments, unconditional
-		inLoop := false
-		for _, anc := range enclosing(cr.Decl.Body, s) {
-			if rs, ok := anc.(*ast.RangeStmt); ok && isField(info, rs.X, "IndexSnapshot", "segment") {
-				inLoop = len(g.GuardsOf(s)) == len(g.GuardsOf(rs.X))
-			}
-		}
-		r.Ob(rule, cr.Name+"/every-root-segment-scheduled", s.Pos(), inLoop, "every segment of the pinned root (persisted or not) is scheduled, unconditionally inside the loop")
 		return true
 	})
-	if nInc != 1 {
-		r.Ob(rule, cr.Name+"/one-increment-site", cr.Decl.Pos(), false, fmt.Sprintf("expected exactly one copyScheduled[...]++ site, found %d", nInc))
+	if len(incs) == 0 {
+		r.Ob(rule, cr.Name+"/one-increment-site", cr.Decl.Pos(), false, "no copyScheduled[...]++ site found")
 		return
 	}
+	// all increments sit in ONE loop over the root's segments (range or index form), and no iteration
+	// of that loop can complete - or leave the function - without executing one of them
+	var loop ast.Stmt
+	sameLoop := true
+	for _, inc := range incs {
+		var mine ast.Stmt
+		for _, anc := range enclosing(cr.Decl.Body, inc) {
+			switch l := anc.(type) {
+			case *ast.RangeStmt:
+				if isField(info, l.X, "IndexSnapshot", "segment") {
+					mine = l
+				}
+			case *ast.ForStmt:
+				if l.Cond != nil {
+					ast.Inspect(l.Cond, func(y ast.Node) bool {
+						if ce, ok := y.(*ast.CallExpr); ok && calleeBuiltin(info, ce) == "len" && len(ce.Args) == 1 && isField(info, ce.Args[0], "IndexSnapshot", "segment") {
+							mine = l
+						}
+						return true
+					})
+				}
+			}
+		}
+		if mine == nil || (loop != nil && loop != mine) {
+			sameLoop = false
+		}
+		loop = mine
+	}
+	everyIter := false
+	if sameLoop && loop != nil {
+		var body *ast.BlockStmt
+		switch l := loop.(type) {
+		case *ast.RangeStmt:
+			body = l.Body
+		case *ast.ForStmt:
+			body = l.Body
+		}
+		if body != nil && len(body.List) > 0 {
+			var start ast.Node
+			ast.Inspect(body, func(y ast.Node) bool {
+				if start != nil || y == nil {
+					return false
+				}
+				if _, ok := g.Locate(y); ok && y != ast.Node(body) {
+					start = y
+					return false
+				}
+				return true
+			})
+			everyIter = start != nil && !g.exitAvoidingAll(start, incs)
+		}
+	}
+	r.Ob(rule, cr.Name+"/every-root-segment-scheduled", incs[0].Pos(), everyIter, "every segment of the pinned root (persisted or not) is scheduled: the increments sit in one loop over the root's segments and no iteration can end without executing one")
+	nInc := len(incs)
+	_ = nInc
 	// root pointer, ref and increments in one W critical section
 	var rootRead *ast.SelectorExpr
 	for _, sel := range selsOfField(info, cr.Decl.Body, "Scorch", "root") {
@@ -566,7 +613,18 @@ func ruleCopyScheduledPairing(r *Report, rule string) {
 		r.Ob(rule, cc.Name+"/entry-deleted-only-at-zero", c.Pos(), ok, "the map entry is dropped only when the stored count reached zero")
 	}
 	// same file-name function on both sides
-	a, b := nameCalls(cr, incKey), nameCalls(cc, decKey)
+	seenName := map[string]bool{}
+	var a []string
+	for _, k := range incKeys {
+		for _, nm := range nameCalls(cr, k) {
+			if !seenName[nm] {
+				seenName[nm] = true
+				a = append(a, nm)
+			}
+		}
+	}
+	sort.Strings(a)
+	b := nameCalls(cc, decKey)
 	r.Ob(rule, "CopyReader~CloseCopyReader/same-file-name-function", cc.Decl.Pos(), len(a) >= 3 && strings.Join(a, ",") == strings.Join(b, ","),
 		fmt.Sprintf("both sides name a segment's file the same way (filepath.Base(Path()) for persisted, zapFileName(id) otherwise): %v vs %v", a, b))
 	// the decrement loop covers every segment of the snapshot
